@@ -36,7 +36,7 @@ func init() {
 			"the input dimension (sizes, NAL types, times) is sampled; what simulation adds is the join point, the interleaving of muxer, delivery and viewer writes, and close-while-writing",
 			"a viewer may receive a prefix only (the stream is closed while tags are still queued)",
 		},
-		RequiredProbes: []string{"c08.join-with-replay", "c08.audio-older-than-first", "c08.websocket-flv"},
+		RequiredProbes: []string{"c08.join-with-replay", "c08.audio-older-than-first", "c08.websocket-flv", "c08.other-stream-watched-before"},
 	})
 }
 
@@ -190,6 +190,34 @@ func buildC08(tier string) sim.Scenario {
 		}
 		w.Logf("c08 codec=%d cacheGop=%v frames=%d base=%d views=%v closeEarly=%v olderAudio=%v", cdc, cacheGop, len(frames), base, joinAt, closeEarly, olderAudio)
 
+		// another stream of the same server, with the other track layout, was watched just before: what a viewer of this
+		// stream receives must not depend on it
+		if tp.OneIn(3) {
+			w.Probe("c08.other-stream-watched-before")
+			preSdp, preAudio := sdpH265, false
+			if cdc == oracle.H265 {
+				preSdp, preAudio = sdpH264AAC, true
+			}
+			pre := media.NewStream("/live/pre", preSdp)
+			media.Regist(pre)
+			prw := &c08RW{w: w, hdr: http.Header{}}
+			pdone := make(chan struct{})
+			w.Go("previewer", func() {
+				defer close(pdone)
+				sflv.ConsumeByHTTP(xlog.L(), "/live/pre", "10.9.0.8:1234", prw)
+			})
+			for k := 0; k < 200 && pre.ConsumerCount() < 1; k++ {
+				w.Sleep(time.Millisecond)
+			}
+			media.Unregist(pre)
+			<-pdone
+			if raw := prw.buf.Bytes(); len(raw) >= 13 {
+				if f, err := oracle.ParseFLV(raw); err == nil && (!f.HasVideo || f.HasAudio != preAudio) {
+					w.Fail("C08/type-flags", "viewer of the stream watched before: header announces video=%v audio=%v, that stream has video and audio=%v", f.HasVideo, f.HasAudio, preAudio)
+					return
+				}
+			}
+		}
 		s = media.NewStream("/live/a", sdp)
 		media.Regist(s)
 		var wg sync.WaitGroup
